@@ -452,6 +452,12 @@ func (w *World) Audit(fr *fsck.Result) []string {
 		}
 	}
 	ib := st.Ialloc.VerifBitmap()
+	if uint64(len(bb)) != L.NBlockBitmap*fsck.BS {
+		errs = append(errs, fmt.Sprintf("balloc-differs-from-disk: the in-memory block allocator covers %d bitmap bytes, the disk has %d bitmap block(s)", len(bb), L.NBlockBitmap))
+	}
+	if len(ib) != fsck.BS {
+		errs = append(errs, fmt.Sprintf("ialloc-differs-from-disk: the in-memory inode allocator covers %d bitmap bytes (%d numbers), the inode bitmap is one block (%d numbers)", len(ib), len(ib)*8, fsck.BS*8))
+	}
 	iblk := get(L.InodeBitmap)
 	for j := 0; j < fsck.BS; j++ {
 		if ib[j] != iblk[j] {
